@@ -199,9 +199,12 @@ impl C16 {
         let thread_rounds = ctx.tier.pick(4, 16);
         if ctx.flavour == Flavour::Miri {
             // no process spawning under Miri: only the in-process contexts
-            return Families::new(vec![("fresh-process", 0), ("shuffled-in-process", 1), ("threads", 2), ("debug-build", 0)]);
+            return Families::new(vec![("fresh-process", 0), ("shuffled-in-process", 1), ("threads", 2), ("debug-build", 0), ("heavy-neighbours", 0)]);
         }
-        Families::new(vec![("fresh-process", n), ("shuffled-in-process", orders), ("threads", thread_rounds), ("debug-build", n)])
+        // the batch again while the process holds millions of live objects of other evaluations (results the caller kept;
+        // evaluations in progress on other threads)
+        let heavy = if ctx.flavour == Flavour::Rel { ctx.tier.pick(2, 4) } else { 0 };
+        Families::new(vec![("fresh-process", n), ("shuffled-in-process", orders), ("threads", thread_rounds), ("debug-build", n), ("heavy-neighbours", heavy)])
     }
 
     fn subprocess(bin: &str, text: &str) -> Option<String> {
@@ -266,6 +269,81 @@ impl Check for C16 {
                         }
                     }
                     None => st.inconclusive(format!("could not run {}", bin)),
+                }
+            }
+            "heavy-neighbours" => {
+                use nederlang::verif::{self, ShadowMode};
+                let expected: Vec<String> = batch.iter().map(|t| rendering(t)).collect();
+                // thorough: four times the objects
+                let per = if i >= 2 { 2_400_000u64 } else { 600_000 };
+                let build = format!("stel a = [0.5]; stel i = 0; zolang i < {} {{ a = [a, float(i)]; i += 1 }}; ", per);
+                let mut differs: Option<(usize, String)> = None;
+                if i % 2 == 0 {
+                    // results of earlier evaluations that the caller still holds: 5 x 2 objects per iteration
+                    verif::reset_all();
+                    verif::set_shadow(ShadowMode::Off);
+                    // (made through the library's own constructors and kept by a collector of their own — another interpreter
+                    //  in the same process; handing millions of objects over as the *result* of a program costs quadratic time)
+                    let mut other = verif::GC::new();
+                    let held: Vec<nederlang::object::Object> = (0..per * 10).map(|k| nederlang::object::Object::float(k as f64 + 0.25, &mut other)).collect();
+                    st.add("heavy-neighbours:live-objects-held-by-another-interpreter", held.len() as u64);
+                    for (k, t) in batch.iter().enumerate() {
+                        let got = rendering(t);
+                        st.evaluations += 1;
+                        st.count("evaluations:next-to-held-results");
+                        if got != expected[k] {
+                            differs = Some((k, got));
+                            break;
+                        }
+                    }
+                    verif::reset_all();
+                    verif::set_shadow(ShadowMode::Off);
+                    drop(held);
+                    drop(other);
+                } else {
+                    // evaluations in progress on four other threads, each holding its objects while it counts
+                    let stop = Arc::new(std::sync::atomic::AtomicBool::new(false));
+                    let ready = Arc::new(std::sync::atomic::AtomicUsize::new(0));
+                    let mut hs = vec![];
+                    for _ in 0..4 {
+                        let (stop, ready, build) = (stop.clone(), ready.clone(), build.clone());
+                        hs.push(std::thread::spawn(move || {
+                            let mut rounds = 0u64;
+                            while !stop.load(std::sync::atomic::Ordering::Relaxed) && rounds < 200 {
+                                // (builds its objects, then counts to two million while it holds them)
+                                let _ = nederlang::eval(&format!("{}stel j = 0; zolang j < 2000000 {{ j += 1 }}; lengte(a)", build));
+                                ready.fetch_add(1, std::sync::atomic::Ordering::Relaxed);
+                                rounds += 1;
+                            }
+                            rounds
+                        }));
+                    }
+                    // several passes over the batch while the neighbours run
+                    let t0 = std::time::Instant::now();
+                    let mut passes = 0;
+                    'outer: while passes < 3 || (ready.load(std::sync::atomic::Ordering::Relaxed) < 8 && t0.elapsed().as_secs() < 60) {
+                        for (k, t) in batch.iter().enumerate() {
+                            let got = rendering(t);
+                            st.evaluations += 1;
+                            st.count("evaluations:next-to-running-neighbours");
+                            if got != expected[k] {
+                                differs = Some((k, got));
+                                break 'outer;
+                            }
+                        }
+                        passes += 1;
+                    }
+                    stop.store(true, std::sync::atomic::Ordering::Relaxed);
+                    let mut total = 0;
+                    for h in hs {
+                        total += h.join().unwrap_or(0);
+                    }
+                    st.add("heavy-neighbours:neighbour-evaluations-completed", total);
+                    st.add("heavy-neighbours:objects-per-neighbour", per * 2);
+                }
+                if let Some((k, got)) = differs {
+                    st.violation("heavy-neighbours:differs", format!("alone: {}
+while the process held millions of live objects of other evaluations: {}", crate::obs::clip(&expected[k], 400), crate::obs::clip(&got, 400)), &batch[k]);
                 }
             }
             "shuffled-in-process" => {
